@@ -198,6 +198,64 @@ def run_histories(ctx, model, rng, corp):
             ctx.sample({"kind": kind, "calls": [(h[0][:60], h[1][:2]) for h in hist[:6]]})
 
 
+# constructs of the OData ABNF that this library does not implement: rejected - and rejected the
+# SAME way whatever the instance went through before
+ABNF_UNSUPPORTED = ["$count gt 1", "xs/$count gt 1", "$it/a eq 1", "$root/a eq 1", "$this eq 1", "@p1 eq 1",
+                    "a eq @p1", "cast(a, Edm.String) eq 'x'", "isof(a, ns.T)", "a has ns.Color'Red'",
+                    "a divby 2 eq 1", "ns.Color'Red' eq c", "a eq {\"k\":1}", "a in [1,2]", "a/ns.T/b eq 1",
+                    "1 lt $count", "null eq $count", "not ($count eq 2)", "a eq b/$count", "$filter eq 1"]
+
+
+def truncations(text):
+    """Every prefix of `text` that ends at a token boundary (the parse stops there)."""
+    toks = _TOK.findall(text)
+    out, acc = [], ""
+    for tk in toks:
+        acc += tk
+        if acc.strip():
+            out.append(acc)
+    return out
+
+
+def run_poison_probe(ctx, model):
+    """After an input whose parse ends AT every possible point (every token-boundary prefix
+    of a few filters that use every kind of token), each probe - valid filters and
+    unsupported ABNF constructs - behaves as on fresh instances."""
+    seeds = ["comments/any(c: c/score gt 1) and a/b/c eq 'x'", "my.f(k=1, v=(1, 2)) eq -3 or not contains(s, 'q')",
+             "d gt 2020-01-01T00:00:00Z and x in (duration'P1D', 1.5e3, null)", "a/b",
+             "geo.distance(p, geography'POINT(1 2)') lt 5 add 2 mul 3", "1/2", "a//b", "a/ b", "a/1"]
+    poisons = []
+    for sd in seeds:
+        poisons.extend(truncations(sd))
+    poisons = list(dict.fromkeys(poisons))
+    probes = ABNF_UNSUPPORTED + ["a eq 1", "x/any(y: y/z eq 'q')", "my.f(a=1,b=2,c=3)", "a/b/c eq 1",
+                                 "contains(s, 'x')", "nosuchfunc(1)", "length()", "#"]
+    n = 0
+    for i, poison in enumerate(poisons):
+        if not ctx.mine(i):
+            continue
+        for probe in probes:
+            for share in ("both", "lexer", "parser"):
+                lx, ps = ODataLexer(), ODataParser()
+                outcome(poison, lx, ps)
+                plx = lx if share in ("both", "lexer") else ODataLexer()
+                pps = ps if share in ("both", "parser") else ODataParser()
+                got, want = outcome(probe, plx, pps), model.get(probe)
+                n += 1
+                ctx.count("evaluations")
+                ctx.count("poison_probe_pairs")
+                if n % 7 == 0:
+                    ctx.seen(["pp", poison, probe, share])
+                if got != want:
+                    ctx.fail({"history_kind": "poison-then-probe", "poison": poison, "probe": probe,
+                              "shared": share},
+                             "after an input whose parse stopped part-way, a probe behaves differently "
+                             "from fresh instances", expected=want, observed=got, cls="poison-probe",
+                             sig=["pp", share])
+                    return
+    ctx.cls("poison-probe")
+
+
 def run_interleaved_tokens(ctx, model, rng, corp):
     """Step tokenize() generators of different lexer instances alternately."""
     for _ in range(ctx.pick(150, 3000)):
@@ -516,6 +574,7 @@ def run(ctx):
     run_interleaved_tokens(ctx, model, rng, corp)
     run_nested(ctx, model, rng, corp)
     run_rewriter(ctx, model, rng, corp)
+    run_poison_probe(ctx, model)
     run_children(ctx, rng, corp)
     if ctx.shard < ctx.pick(2, 6):
         run_threads(ctx, model, rng, corp)
